@@ -231,7 +231,11 @@ class T:
             self.use('op:+str')
             return Bin('+', g('Str', d - 1), g(self.pick(['Str', 'Dec', 'Bool']), d - 1))
         if c == 1:
-            return self.style(self.pick(['upper', 'lower', 'strip']), [g('Str', d - 1)])
+            fn = self.pick(['upper', 'lower', 'strip', 'strip'])
+            if fn == 'strip' and self.n(2):
+                # strip only shows on strings with outer blanks
+                return self.style('strip', [Bin('+', Val(self.pick([' ', '\t', '  ', ''])), Bin('+', g('Str', d - 1), Val(self.pick([' ', ' \t', '  ', '\n']))))])
+            return self.style(fn, [g('Str', d - 1)])
         if c == 2:
             return self.style('str', [g(self.pick(['Dec', 'Bool', 'Str']), d - 1)])
         if c == 3:
